@@ -12,7 +12,7 @@ except Exception:
 checks = []
 for pid in all_ids:
     P = cfg["properties"].get(pid)
-    if not P or P.get("disabled"):
+    if not P or P.get("disabled") or pid in cfg.get("disabled", []):
         continue
     checks.append({
         "property_id": pid,
@@ -27,7 +27,7 @@ for pid in all_ids:
     })
 engines = {}
 for pid, P in cfg["properties"].items():
-    if P.get("disabled"):
+    if P.get("disabled") or pid in cfg.get("disabled", []):
         continue
     engines.setdefault(P["engine"], []).append(pid)
 man = {
